@@ -31,7 +31,8 @@ def gen_case(rng, tier, k):
     bnet = common.g_compose(rng, extra_max=max(0, nmax - 4)) if rng.random() < 0.6 else common.g_mixed(rng, nmax=nmax, p_core=0.0)
     prefix = gen_ops(rng, rng.randint(0, 4), allow_skip=True, allow_unmodelled=False)
     qs = [[rng.randrange(64), rng.choice(["sets", "seeds-sets", "seeds-reclaim-sets", "seeds-pickle-sets", "sets-sets",
-                                           "rawcands-seeds-sets", "rawcands-sets", "rawcands-seeds-sets", "rawcands-sets"])]
+                                           "rawcands-seeds-sets", "rawcands-sets", "rawcands-seeds-sets", "rawcands-sets",
+                                           "seeds-sets-ro", "rawcands-seeds-sets-ro", "sets-ro"])]
           for _ in range(rng.randint(2, 6))]
     return {"bnet": bnet, "ops": prefix, "queries": qs, "fallback": rng.random() < 0.7}
 
@@ -59,6 +60,10 @@ def run_case(case):
                 sd.node_attractor_seeds(i, compute=True)
             if mode == "sets-sets":
                 sd.node_attractor_sets(i, compute=True)
+            if mode.endswith("-ro"):
+                # read-only API calls (summary, edge queries, find_node, ...) between computing and reading
+                sd.node_attractor_sets(i, compute=True)
+                plain.apply_op(sd, ni, ["readonly", i])
             if "reclaim" in mode:
                 sd.reclaim_node_data()
             if "pickle" in mode:
